@@ -7,6 +7,7 @@
    EptMapResult.pack is tied under the field ranges eptres_ranges (implied by wf_ept_map_result). *)
 From V Require Import Prelude.Base Prelude.PyInt Prelude.PySlice Prelude.PyStr Prelude.PyAst Prelude.PyWorld gen.F_rpc.
 From V Require Import Model.Pdu Model.Request Model.RpcLoop Model.Bind Model.Verification Model.Epm Flow.World_rpc Proofs.Flow_rpc_lib.
+From V Require Import Proofs.RpcTotal.
 Local Open Scope string_scope.
 Local Open Scope list_scope.
 Local Open Scope Z_scope.
@@ -140,7 +141,6 @@ Proof.
 Qed.
 
 (* EptMapResult.pack: the field ranges under which no to_bytes overflows (implied by wf_ept_map_result) *)
-Definition handle_ok (h : option (Z * bytes)) : bool := match h with Some (a, _) => in_range 4 a | None => true end.
 Definition tower_ok (t : list floor) : bool := in_range 2 (len t) && in_range 4 (len (tower_bytes t)).
 Definition eptres_ranges (m : ept_map_result) : bool :=
   handle_ok (er_entry_handle m) && forallb tower_ok (er_towers m) && in_range 4 (len (er_towers m)) && in_range 4 (er_status m).
@@ -216,3 +216,8 @@ Proof.
   - rewrite forallb_forall in *. intros t Ht. specialize (H2 t Ht). unfold tower_ok.
     apply andb_prop in H2. destruct H2 as [H2 Hb]. apply andb_prop in H2. destruct H2 as [_ Ha]. rewrite Ha, Hb. reflexivity.
 Qed.
+
+Lemma flow_eptmapresult_unpack_total mf mfuel fuel data : len data < Z.of_nat mfuel ->
+  run (W mf) fuel k_flow_eptmapresult_unpack [VO (OCls CEptMapResult); VB data] =
+  lift_fst OEptMapResult (ept_map_result_unpack mfuel data).
+Proof. intros H. apply flow_eptmapresult_unpack. exact (proj1 (ept_map_result_unpack_total data mfuel H)). Qed.
